@@ -28,6 +28,9 @@ type c15Case struct {
 	// (C-x f / C-x b); tab = Tab / Shift-Tab; ctrl = C-n / C-p; updown, leftright = the arrow keys that the
 	// default menu keymap binds to the same two commands
 	Keys string `json:"keys,omitempty"`
+	// list: the candidates are displayed as a list (Completions.DisplayList), one per row
+	// whatever their width, instead of a grid
+	Display string `json:"display,omitempty"`
 }
 
 var c15KeySets = map[string][2]string{
@@ -94,6 +97,14 @@ func c15Gen(r *rand.Rand, tier string, idx int) any {
 			}
 		}
 	}
+	if (kind == "plain" || kind == "described") && r.Intn(4) == 0 {
+		c.Display = "list"
+		if kind == "described" && r.Intn(2) == 0 {
+			for i := range c.Descs {
+				c.Descs[i] = fmt.Sprintf("d%d", i) // short entries: several would fit on a row
+			}
+		}
+	}
 	if r.Intn(3) == 0 {
 		// the word is completed inside a line: the text after the cursor must stay where it is
 		c.Tail = pick(r, []string{" push", " --verbose", "  x y", " 界 z", " t", "tail"})
@@ -113,6 +124,17 @@ func c15Gen(r *rand.Rand, tier string, idx int) any {
 }
 
 func c15Completer(c *c15Case) func([]rune, int) readline.Completions {
+	inner := c15CompleterGrid(c)
+	return func(line []rune, cur int) readline.Completions {
+		comps := inner(line, cur)
+		if c.Display == "list" {
+			comps = comps.DisplayList()
+		}
+		return comps
+	}
+}
+
+func c15CompleterGrid(c *c15Case) func([]rune, int) readline.Completions {
 	return func(line []rune, cur int) readline.Completions {
 		if len(c.Tags) == len(c.Values) && len(c.Tags) > 0 {
 			var all readline.Completions
@@ -214,6 +236,9 @@ func c15Run(env *fw.Env, raw json.RawMessage) fw.Outcome {
 		kind = "aliased"
 	case len(c.Descs) > 0:
 		kind = "described"
+	}
+	if c.Display != "" {
+		kind += "-as-" + c.Display
 	}
 	ctx := fmt.Sprintf("N=%d kind=%s dir=%s W=%d H=%d prefix=%q text-after-cursor=%q keys=%q values=%q", N, kind, c.Dir, c.W, c.H, c.Prefix, c.Tail, c.Keys, clampList(c.Values, 8))
 	if !stdFailures(&o, res, ctx) {
